@@ -1252,6 +1252,15 @@ func (db *DB) Repair(of Object) (err error) {
 		return
 	}
 
+	// we de-index missing objects first: the unique values they
+	// hold may be those of objects which have to be indexed
+	for uuid := range s.ObjectIndex.uuids {
+		if !uuids[uuid] {
+			// if object is not on disk and is in index
+			s.unindexByUUID(uuid)
+		}
+	}
+
 	// we re-index missing uuids
 	for uuid := range uuids {
 		// we don't re-index already indexed objects
@@ -1269,14 +1278,6 @@ func (db *DB) Repair(of Object) (err error) {
 
 		if err = s.index(o); err != nil {
 			return
-		}
-	}
-
-	// we de-index missing objects
-	for uuid := range s.ObjectIndex.uuids {
-		if !uuids[uuid] {
-			// if object is not on disk and is in index
-			s.unindexByUUID(uuid)
 		}
 	}
 
